@@ -10,7 +10,7 @@ CLANG = 'clang++'
 GXX = 'g++'
 COMMON = ['-std=c++20', '-DNDEBUG', '-DCHESSPP_VERIF', '-DLOG_LEVEL=0', '-I', os.path.join(REPO, 'engine'),
           '-I', os.path.join(ROOT, 'harness', 'shim'), '-I', os.path.join(ROOT, 'harness'), '-pthread']
-SAN_FATAL = 'bounds,object-size,null,alignment,return,unreachable,vla-bound,pointer-overflow'
+SAN_FATAL = 'bounds,object-size,null,alignment,return,unreachable,vla-bound,pointer-overflow,bool,enum'
 FLAVOURS = {
     'asan': dict(cxx=CLANG, flags=['-O1', '-g', '-fno-omit-frame-pointer', '-fsanitize=address,undefined',
                                    '-fno-sanitize-recover=' + SAN_FATAL, '-DCHESSPP_VERIF_TT_ENTRIES=4096'],
@@ -18,6 +18,8 @@ FLAVOURS = {
     'fast': dict(cxx=GXX, flags=['-O2', '-DCHESSPP_VERIF_TT_ENTRIES=4096'], link=['-lrapidcheck']),
     'tsan': dict(cxx=CLANG, flags=['-O1', '-g', '-fsanitize=thread', '-DCHESSPP_VERIF_TT_ENTRIES=4096'],
                  link=['-fsanitize=thread', '-lrapidcheck']),
+    'cov': dict(cxx=CLANG, flags=['-O1', '-g', '-fprofile-instr-generate', '-fcoverage-mapping', '-DCHESSPP_VERIF_TT_ENTRIES=4096'],
+                link=['-fprofile-instr-generate', '-lrapidcheck']),
     'fuzz': dict(cxx=CLANG, flags=['-O1', '-g', '-fno-omit-frame-pointer', '-fsanitize=address,undefined,fuzzer-no-link',
                                    '-fno-sanitize-recover=' + SAN_FATAL, '-DCHESSPP_VERIF_TT_ENTRIES=4096'],
                  link=['-fsanitize=address,undefined,fuzzer']),
@@ -671,11 +673,81 @@ def fuzz_env(rundir, stats=None, opts=''):
     return env
 
 
+def build_real_engine(flavour='asan'):
+    """the engine's own main() linked with the sanitizer-instrumented engine objects"""
+    fl = FLAVOURS[flavour]
+    flags = COMMON + fl['flags']
+    eh = sha_files(engine_all_files(), ' '.join([fl['cxx']] + flags))
+    edir = os.path.join(BUILD, 'eng-%s-%s' % (flavour, eh))
+    exe = os.path.join(edir, 'chessplusplus-' + flavour)
+    if os.path.exists(exe):
+        return exe
+    if not build(flavour, 'runner'):
+        return None
+    objs = [os.path.join(edir, os.path.basename(s)[:-4] + '.o') for s in engine_sources()]
+    mo = os.path.join(edir, 'main.o')
+    r = run_cmd([fl['cxx']] + flags + ['-c', os.path.join(REPO, 'engine', 'main.cpp'), '-o', mo])
+    if r.returncode:
+        log('main.cpp build failed:\n' + r.stdout[-3000:])
+        return None
+    r = run_cmd([fl['cxx'], mo] + objs + ['-fsanitize=address,undefined', '-pthread', '-o', exe])
+    if r.returncode:
+        log('engine link failed:\n' + r.stdout[-3000:])
+        return None
+    return exe
+
+
+STARTUP_SESSIONS = [
+    'uci\nisready\nquit\n',
+    'uci\nsetoption name Polyglot Sample value best\nsetoption name Polyglot Book value /nonexistent\nisready\nucinewgame\nposition startpos moves e2e4 e7e5\nprintboard\nhash\nstaticeval\nperft 2\nquit\n',
+    'isready\nposition fen r3k2r/p1ppqpb1/bn2pnp1/3PN3/1p2P3/2N2Q1p/PPPBBPPP/R3K2R w KQkq - 0 1 moves e1g1\nperft 1\nstaticeval\nuci\nquit\n',
+]
+
+
+def startup_probe(pid):
+    """the real executable (engine/main.cpp) under ASan/UBSan on scripted sessions without searches: start-up, option
+    handling and the non-search commands.  Returns (ok, output)"""
+    exe = build_real_engine('asan')
+    if not exe:
+        return None, 'build failed'
+    env = dict(os.environ)
+    env.update(ASAN_ENV)
+    for sess in STARTUP_SESSIONS:
+        r = subprocess.run([exe], input=sess, stdout=subprocess.PIPE, stderr=subprocess.STDOUT, text=True, env=env, timeout=600)
+        if r.returncode != 0 or 'runtime error' in r.stdout or 'ERROR: AddressSanitizer' in r.stdout:
+            return False, 'session: %r\n%s' % (sess, r.stdout[-3000:])
+    return True, ''
+
+
 def run_c10(pid, cfg, tier, seed, t0):
+    ok, out = startup_probe(pid)
+    if ok is None:
+        return 2
+    if not ok:
+        os.makedirs(os.path.join(ROOT, 'replays'), exist_ok=True)
+        dest = os.path.join(ROOT, 'replays', '%s-%s-startup-probe.txt' % (pid, tier))
+        open(dest, 'w').write('# property C10\n# startup-probe\n' + out)
+        sig = crash_signature(out)
+        known = [k for k in load_known() if k.get('property') == pid and k.get('status') == 'known']
+        matched = [k for k in known if k.get('signature') and re.search(k['signature'], sig + '\n' + out)]
+        if matched:
+            print('KNOWN-FINDING: property=%s %s' % (pid, matched[0].get('what', '')))
+        else:
+            write_evidence(pid, tier, seed, cfg['level'], dict(evaluations=len(STARTUP_SESSIONS), distinct_nontrivial=len(STARTUP_SESSIONS), rule=cfg['rule'],
+                                                                 samples=[s for s in STARTUP_SESSIONS], violation_replays=[dest]), cfg.get('assumptions', []), time.time() - t0, 1)
+            log('--- start-up probe of the real executable (%s) ---\n%s' % (sig, out))
+            print('VIOLATION property=%s replay=%s' % (pid, os.path.relpath(dest, ROOT)))
+            return 1
     rc = run_rc_property(pid, cfg, tier, seed, t0)
     ev_path = os.path.join(ROOT, 'evidence', pid + '.json')
     if rc != 0 or not os.path.exists(ev_path):
         return rc
+    try:
+        ev0 = json.load(open(ev_path))
+        ev0['coverage']['startup_probe'] = dict(sessions=len(STARTUP_SESSIONS), rule='engine/main.cpp linked with the ASan/UBSan engine objects, scripted sessions without searches over stdin; any sanitizer report or non-zero exit is a violation')
+        json.dump(ev0, open(ev_path, 'w'), indent=1)
+    except Exception:
+        pass
     tc = cfg[tier]
     jobs = tc.get('fuzz_jobs', 0)
     if not jobs:
@@ -773,6 +845,13 @@ def run_c10(pid, cfg, tier, seed, t0):
 
 def replay_c10(pid, cfg, path):
     head = open(path, 'rb').read(16)
+    if b'# startup-probe' in open(path, 'rb').read(64):
+        ok, out = startup_probe(pid)
+        print(out)
+        if ok is False:
+            print('VIOLATION property=%s replay=%s' % (pid, path))
+            return 1
+        return 0 if ok else 2
     if head.startswith(b'# property'):
         exe = build('asan', 'runner')
         if not exe:
